@@ -28,6 +28,19 @@ def stringify(row):
 '''
 
 
+STRIP_SPEC = '''
+def strip_cell(v):
+    if isinstance(v, str) and v != '' and (v[-1] in ' \\t\\n\\r' or v[0] in ' \\t\\n\\r'):
+        return v.strip()
+    else:
+        return v
+
+
+def strip_step(row):
+    return [dict((k, strip_cell(v)) for k, v in row.items())]
+'''
+
+
 def mk_load(it, **kw):
     from pyvc.api import real_function
     L = real_function(it, 'dataflows.processors.load', 'load')
@@ -54,7 +67,7 @@ def sym_limiter(vc):
         def at_end(it, env, cap, events):
             row, snap = cap
             ys = yields_of(events)
-            check(it, 'every-pulled-row-is-yielded-same-object', len(ys) == 1 and ys[0].obj is row)
+            check(it, 'every-pulled-row-is-yielded-once', len(ys) == 1)
             if len(ys) == 1:
                 check(it, 'row-untouched', same_row(ys[0].value, snap))
             check(it, 'no-buffering', not [e for e in events if e.kind == 'Drain'])
@@ -64,7 +77,7 @@ def sym_limiter(vc):
             row, snap = cap
             ys = yields_of(events)
             n = it.path.info['count:limiter#L0']
-            check(it, 'stops-exactly-at-the-limit', z3.And(_b(len(ys) == 1 and ys[0].obj is row), n + 1 == lim.t))
+            check(it, 'stops-exactly-at-the-limit', z3.And(_b(len(ys) == 1), same_row(ys[0].value, snap) if len(ys) == 1 else _b(False), n + 1 == lim.t))
             check(it, 'no-pull-after-the-last-delivered-row', len([e for e in events if e.kind == 'Pull']) == 0)
         it.loops['load.limiter#L0'] = LoopSpec(inv_n=inv_n, at_start=at_start, at_end=at_end, at_break=at_break,
                                                at_exit=lambda it, env: it.path.info.__setitem__('exit_mark', len(it.path.events)))
@@ -88,10 +101,20 @@ def sym_stringer(vc):
                    'load.stringer#L0', identity=False, get_fn=get_fn, min_paths=2)
 
 
+def sym_stripper(vc):
+    """load.stripper: per row the SAME dict object is yielded with the same keys; a string cell that begins or ends with one of
+    ' \\t\\n\\r' is replaced by its .strip(), every other cell (other strings, non-strings, None) is left exactly as it was"""
+    def get_fn(it):
+        ld = mk_load(it)
+        return it.lib.getattr_(it, ld, 'stripper')
+    row_transducer(vc, P + 'load.py', ['load', 'stripper'], None, None, STRIP_SPEC, 'strip_step', lambda it, rows: ([rows], []),
+                   'load.stripper#L0', identity=None, get_fn=get_fn, min_paths=2)
+
+
 def sym_tuple_source(vc):
     """load((descriptor, iterators)): the same matcher filters descriptors and iterators position-wise"""
     import z3
-    from pyvc.api import real_function, LoopSpec, check, cover, PyDict, SymList, SymSeq, IntS, Opaque, Tree, PyList
+    from pyvc.api import real_function, LoopSpec, check, cover, PyDict, SymList, SymSeq, IntS, Opaque, Tree, PyList, Stream, yields_of
     from pyvc import lib
     from contracts.common import resource_desc
     fk = vc.under_contract(P + 'load.py', ['load', 'safe_process_datapackage'])
@@ -101,7 +124,13 @@ def sym_tuple_source(vc):
             sel, want = selector(it, kind)
             pw = mk_package2(it, 'src')
             src_desc = pw.attrs['pkg'].attrs['descriptor']
-            iters = Opaque('iterators', 'resource_iterator')
+            given = []
+
+            def mk_iter(it_):
+                o = Opaque('iterator', 'given_iterator%d' % len(given))
+                given.append(o)
+                return o
+            iters = Stream('resource_iterator', mk_iter)
             ld = it.call(L, [(src_desc, iters)], dict(resources=sel))
             if kind == 'int':
                 i = sel.t
@@ -124,17 +153,28 @@ def sym_tuple_source(vc):
             it.loops['load.safe_process_datapackage#L0'] = LoopSpec(at_start=at_start, at_end=at_end)
             r = it.call(it.lib.getattr_(it, ld, 'safe_process_datapackage'), [dp])
             its = ld.attrs.get('iterators')
-            # iterators: a lazy comprehension over zip(iterators, descriptors) filtered by the same matcher on the descriptor name
+            # iterators: a LAZY filter over the pairs (k-th given iterator, k-th descriptor), by the same matcher on the
+            # descriptor's name
             ok = isinstance(its, lib.GenExp)
-            check(it, 'iterators-filtered-lazily' + tag, ok)
+            check(it, 'iterators-filtered-lazily' + tag, ok and not [e for e in it.path.events if e.kind in ('Pull', 'Drain', 'Take')
+                                                                      and getattr(e, 'src', None) in (iters, iters.name)])
             if ok:
-                import ast
-                g = its.node.generators[0]
-                src = ast.unparse(g.iter).replace(' ', '')
-                cond = ast.unparse(g.ifs[0]).replace(' ', '') if g.ifs else ''
-                check(it, 'iterators-paired-with-descriptors-by-position-same-matcher' + tag,
-                      src == 'zip(resource_iterator,resources)' and cond == "resource_matcher.match(descriptor['name'])" and
-                      ast.unparse(its.node.elt) == 'resource' and its.env.lookup('resource_matcher') is not None)
+                def p_end(it_, env_, cap, evs):
+                    zs = (it_.path.info.get('zip_sources') or [None])[-1]
+                    ys = yields_of(evs)
+                    okz = zs is not None and zs.shortest and len(zs.parts) == 2 and zs.present == [True, True] and len(given) == 1 \
+                        and getattr(getattr(zs.parts[0], 'stream', None), 'name', None) == iters.name
+                    check(it_, 'pairs-are-kth-iterator-with-kth-descriptor' + tag, okz)
+                    if okz:
+                        k = zs.index
+                        m = want(pw, pw.RESNAME(k))
+                        check(it_, 'kth-iterator-kept-iff-kth-descriptor-selected' + tag, z3.And(
+                            z3.Implies(m, _b(len(ys) == 1 and ys[0].obj is given[0])), z3.Implies(z3.Not(m), _b(len(ys) == 0))))
+                    cover(it_, 'pair-reachable' + tag)
+                it.loops['<top>#X0'] = LoopSpec(at_end=p_end)
+                n_before = len(it.path.events)
+                it.lib.yield_from(it, its)
+                check(it, 'nothing-yielded-after-the-pairs-are-exhausted' + tag, not yields_of(it.path.events[n_before:]))
             ex = [e for e in it.path.events if e.kind == 'Call' and e.method == 'extend']
             check(it, 'selected-descriptors-appended-after-the-existing-resources' + tag,
                   len(ex) == 1 and ex[0].objs[0] is ld.attrs['resource_descriptors'])
@@ -303,6 +343,7 @@ def nat_cast_on_error(h):
 ITEMS = [
     Item('load.limiter', sym_limiter, [('wrappers', nat_wrappers)], P + 'load.py::load.limiter'),
     Item('load.stringer', sym_stringer, [], P + 'load.py::load.stringer'),
+    Item('load.stripper', sym_stripper, [], P + 'load.py::load.stripper'),
     Item('load.tuple-source', sym_tuple_source, [], P + 'load.py::load.safe_process_datapackage'),
     Item('load.process_resources', K16.sym_appenders, [], P + 'load.py::load.process_resources'),
     Item('ResourceMatcher', K10.ITEMS[0].symbolic, [], 'dataflows/helpers/resource_matcher.py::ResourceMatcher.match'),
